@@ -128,6 +128,8 @@ func runC09(c *Ctx) {
 	checkT0(c)
 	checkT5c(c)
 	checkT8(c)
+	r.Rule("T6f", "the implied slice start is supplied only after `.[`", 1)
+	ruleT6f(c, "T6f")
 
 	// T7: every binary operator that token post-processing inserts between a
 	// token and the traversal that follows it binds tighter than every infix
